@@ -93,6 +93,43 @@ func mkService(root string, n int, dynamic bool) *restful.WebService {
 // dynamic service.  Stable services must always be answered 200 by the right route with the right
 // parameter; changing ones 200 or 404 (a registration state that existed during the request).
 func stressC12(d time.Duration, seed uint64) result {
+	// (0) a container on http.DefaultServeMux: Remove refuses (documented) — and must leave the
+	// container usable: a registration and a request afterwards come back
+	{
+		c := restful.NewContainer()
+		c.ServeMux = http.DefaultServeMux
+		ws := mkService("/verif-default-mux", 1, false)
+		done := make(chan string, 1)
+		go func() {
+			defer func() {
+				if p := recover(); p != nil {
+					done <- "" // a pattern clash on the process-wide mux is not our subject
+				}
+			}()
+			c.Add(ws)
+			if err := c.Remove(ws); err == nil {
+				done <- "Remove on a container using http.DefaultServeMux returned no error"
+				return
+			}
+			c.RegisteredWebServices()
+			rec := httptest.NewRecorder()
+			c.Dispatch(rec, httptest.NewRequest("GET", "/verif-default-mux/r0/7", nil))
+			if rec.Code != 200 {
+				done <- fmt.Sprintf("after the refused Remove GET /verif-default-mux/r0/7 is answered %d", rec.Code)
+				return
+			}
+			done <- ""
+		}()
+		select {
+		case msg := <-done:
+			if msg != "" {
+				return result{OK: false, What: "refused Remove (http.DefaultServeMux)", Detail: msg}
+			}
+		case <-time.After(5 * time.Second):
+			return result{OK: false, What: "deadlock: after Remove refused to work on http.DefaultServeMux the container no longer answers (lock not released on the error path)", Detail: "Add, Remove (error), RegisteredWebServices, Dispatch"}
+		}
+		count("refused-remove-on-default-mux")
+	}
 	deadline := time.Now().Add(d)
 	var bad atomic.Value
 	fail := func(what, detail string) { bad.CompareAndSwap(nil, [2]string{what, detail}) }
@@ -158,7 +195,7 @@ func stressC12(d time.Duration, seed uint64) result {
 									fmt.Sprintf("GET %s router=%s: status %d, want %d", path, router, rec.Code, want))
 							}
 						}
-						switch r.Intn(4) {
+						switch r.Intn(5) {
 						case 0:
 							ws := mkService(tmpRoot, 1, true)
 							c.Add(ws)
@@ -197,6 +234,20 @@ func stressC12(d time.Duration, seed uint64) result {
 							probe("/dyn"+p, 404, "RemoveRoute")
 							probe("/dyn"+p+"z", 200, "RemoveRoute of its neighbours")
 							dyn.RemoveRoute("/dyn"+p+"z", "GET")
+						case 3:
+							// two methods on one path: removing one leaves the other
+							p := fmt.Sprintf("/mm%d_%d", m, i%2)
+							x := func(req *restful.Request, resp *restful.Response) { resp.Write([]byte("x")) }
+							dyn.Route(dyn.GET(p).To(x))
+							dyn.Route(dyn.PUT(p).To(x))
+							dyn.RemoveRoute("/dyn"+p, "GET")
+							count("RemoveRoute-one-of-two-methods")
+							rec := httptest.NewRecorder()
+							c.Dispatch(rec, httptest.NewRequest("PUT", "/dyn"+p, nil))
+							if rec.Code != 200 {
+								fail("RemoveRoute(path, GET) also removed the PUT route on that path", fmt.Sprintf("PUT /dyn%s router=%s: status %d, want 200", p, router, rec.Code))
+							}
+							dyn.RemoveRoute("/dyn"+p, "PUT")
 						default:
 							c.RegisteredWebServices()
 						}
@@ -345,8 +396,16 @@ func (l *ledger) ReleaseZlibWriter(w *zlib.Writer) { l.give(w); l.inner.ReleaseZ
 // 0, 1, 2 and the sync.Pool provider; every response must decode to its own payload; nobody may block.
 func stressC13(d time.Duration, seed uint64) result {
 	// (0) the provider API hammered directly: more goroutines than capacity, tight acquire/release loops
-	for _, capn := range []int{0, 1, 2} {
-		p := restful.NewBoundedCachedCompressors(capn, capn)
+	for _, caps := range [][2]int{{0, 0}, {1, 1}, {2, 2}, {0, 1}, {1, 2}, {2, 1}, {3, 0}} {
+		capn := caps[0]
+		var p *restful.BoundedCachedCompressors
+		built := make(chan struct{})
+		go func() { p = restful.NewBoundedCachedCompressors(caps[0], caps[1]); close(built) }()
+		select {
+		case <-built:
+		case <-time.After(5 * time.Second):
+			return result{OK: false, What: "NewBoundedCachedCompressors does not return (blocked while filling its caches)", Detail: fmt.Sprintf("writersCapacity=%d readersCapacity=%d", caps[0], caps[1])}
+		}
 		var wg sync.WaitGroup
 		for g := 0; g < 8; g++ {
 			wg.Add(1)
@@ -474,8 +533,15 @@ func stressC13(d time.Duration, seed uint64) result {
 							zw.Write([]byte(`{"k":"` + n + `"}`))
 							zw.Close()
 							bs := buf.Bytes()
-							if r.Chance(1, 5) {
+							switch r.Intn(10) {
+							case 0, 1:
 								bs = bs[:len(bs)/2] // truncated body: ReadEntity must fail and still release
+							case 2:
+								bs = []byte(`{"k":"not gzip at all"}`) // the gzip HEADER is already wrong
+							case 3:
+								bs = nil // empty body declared gzip
+							case 4:
+								bs = bs[:5] // cut inside the header
 							}
 							body = bytes.NewReader(bs)
 							req = httptest.NewRequest("POST", "/e/"+n, body)
